@@ -44,12 +44,45 @@ Proof.
   pose proof mode_table_ok as H. rewrite forallb_forall in H. exact (H t Hin).
 Qed.
 
+(* ------------------------------------------------------------------------------------------------ *)
+(* what the regenerated rectangle arithmetic computes; everything below uses only these equations, so a
+   refactoring of the Python expressions that keeps their value (up to ring identities) keeps the proofs *)
+Ltac pair_eq := repeat match goal with |- (_, _) = (_, _) => apply f_equal2 end; try reflexivity; try lia.
+
+Lemma pos_eq : forall c row col, pos c row col = ((col - 1) * fw c, (row - 1) * fh c).
+Proof. intros. unfold pos, vb_text_to_pixel_pos. cbv beta iota zeta. pair_eq. Qed.
+
+Lemma area_eq : forall c r0 c0 r1 c1,
+  area c r0 c0 r1 c1 = ((c0 - 1) * fw c, (r0 - 1) * fh c, c1 * fw c - 1, r1 * fh c - 1).
+Proof.
+  intros. unfold area, vb_text_to_pixel_area, vb_text_to_pixel_pos. cbv beta iota zeta. pair_eq.
+Qed.
+
+Lemma text_area_eq : forall c x0 y0 x1 y1,
+  text_area c x0 y0 x1 y1 =
+  (Z.min (TH c) (Z.max 1 (1 + y0 / fh c)), Z.min (TW c) (Z.max 1 (1 + x0 / fw c)),
+   Z.min (TH c) (Z.max 1 (1 + y1 / fh c)), Z.min (TW c) (Z.max 1 (1 + x1 / fw c))).
+Proof.
+  intros. unfold text_area, vb_pixel_to_text_area. cbv beta iota zeta. pair_eq.
+Qed.
+
+Lemma sdl_font_size_eq : forall a b ph pw th tw, sdl_font_size a b ph pw th tw = (- (- ph / th), pw / tw).
+Proof. intros. unfold sdl_font_size. cbv beta iota zeta. pair_eq. Qed.
+
+Lemma sdl_scroll_bands_eq : forall f a b,
+  sdl_scroll_bands f a b = ((a - 1) * f, (b - 1) * f, a * f, b * f).
+Proof. intros. unfold sdl_scroll_bands. cbv beta iota zeta. pair_eq. Qed.
+
+Ltac geo := repeat (progress (rewrite ?pos_eq, ?area_eq, ?text_area_eq, ?sdl_scroll_bands_eq; cbv beta iota zeta)).
+Ltac geo_in H :=
+  repeat (progress (rewrite ?pos_eq, ?area_eq, ?text_area_eq in H; cbv beta iota zeta in H)).
+
 (* the consumer derives the same font size from the SET_MODE numbers *)
 Lemma sdl_font_size_ok : forall c a b, cfg_ok c ->
   sdl_font_size a b (PH c) (PW c) (TH c) (TW c) = (fh c, fw c).
 Proof.
   intros c a b (Hfw & Hfh & Htw & Hth & Hpw & Hlo & Hhi & _).
-  unfold sdl_font_size. f_equal.
+  rewrite sdl_font_size_eq. f_equal.
   - assert (E : - PH c / TH c = - fh c).
     { symmetry. apply Z.div_unique with (r := fh c * TH c - PH c); [left; lia | lia]. }
     rewrite E. lia.
@@ -85,7 +118,7 @@ Theorem cover : forall c y0 y1 x0 x1, cfg_ok c ->
   /\ 1 <= row0 <= row1 /\ row1 <= TH c /\ 1 <= col0 <= col1 /\ col1 <= TW c.
 Proof.
   intros c y0 y1 x0 x1 (Hfw & Hfh & Htw & Hth & Hpw & Hlo & Hhi & Hlast) Hy Hy1 Hx Hx1.
-  unfold text_area, vb_pixel_to_text_area, pos, vb_text_to_pixel_pos. cbv beta iota zeta.
+  geo.
   assert (Hyb : y1 < TH c * fh c) by lia.
   assert (Hxb : x1 < TW c * fw c) by lia.
   destruct (clamp_cell x0 (fw c) (TW c)) as [Ex0 Rx0]; try lia.
@@ -161,7 +194,7 @@ Proof. intros. unfold submit. rewrite H. reflexivity. Qed.
 Lemma submit_geom : forall c pg k t l b r, geom_ok c k -> geom_ok c (consume k (sigs (submit c pg t l b r))).
 Proof.
   intros c pg k t l b r G. unfold submit. destruct (visible pg); [|exact G].
-  unfold pos, vb_text_to_pixel_pos. cbv beta iota zeta. simpl. exact G.
+  geo. simpl. exact G.
 Qed.
 
 Lemma submit_spec : forall c pg k t l b r y x, geom_ok c k -> visible pg = true -> inb c y x ->
@@ -170,7 +203,7 @@ Lemma submit_spec : forall c pg k t l b r y x, geom_ok c k -> visible pg = true 
   then px pg y x else canvas k y x.
 Proof.
   intros c pg k t l b r y x (G1 & G2 & _) V [Hy Hx].
-  unfold submit. rewrite V. unfold pos, vb_text_to_pixel_pos. cbv beta iota zeta.
+  unfold submit. rewrite V. geo.
   simpl sigs. unfold consume. simpl fold_left. unfold consume1, set_canvas. simpl canvas.
   rewrite G1, G2.
   set (y0 := (t - 1) * fh c). set (y1 := (b + 1 - 1) * fh c).
@@ -201,15 +234,15 @@ Qed.
 (* ------------------------------------------------------------------------------------------------ *)
 (* force_submit *)
 Lemma draw_visible : forall c p pg row s e img, visible (fst (draw c p pg row s e img)) = visible pg.
-Proof. intros. unfold draw, area, vb_text_to_pixel_area. cbv beta iota zeta. reflexivity. Qed.
+Proof. intros. unfold draw. geo. reflexivity. Qed.
 
 Lemma draw_sigs : forall c p pg row s e img, sigs (snd (draw c p pg row s e img)) = [].
-Proof. intros. unfold draw, area, vb_text_to_pixel_area. cbv beta iota zeta. reflexivity. Qed.
+Proof. intros. unfold draw. geo. reflexivity. Qed.
 
 Lemma draw_px : forall c p pg row s e img y x,
   px (fst (draw c p pg row s e img)) y x =
   mset c (px pg) ((row - 1) * fh c) (row * fh c - 1 + 1) ((s - 1) * fw c) (e * fw c - 1 + 1) img y x.
-Proof. intros. unfold draw, area, vb_text_to_pixel_area. cbv beta iota zeta. reflexivity. Qed.
+Proof. intros. unfold draw. geo. reflexivity. Qed.
 
 (* one iteration: draw the cells, submit the cells *)
 Lemma draw_submit_point : forall c p pg k row s e img y x, geom_ok c k -> visible pg = true -> inb c y x ->
@@ -385,7 +418,7 @@ Proof.
     try (left; cbn [px set_px]; rewrite mset_out by lia; apply A; exact I).
     right.
     pose proof (cover c y0 (y1 - 1) x0 (x1 - 1) C) as Hcov.
-    rewrite E in Hcov. unfold pos, vb_text_to_pixel_pos in Hcov. cbv beta iota zeta in Hcov.
+    rewrite E in Hcov. geo_in Hcov.
     destruct I as [Iy Ix]. lia.
 Qed.
 
@@ -440,7 +473,7 @@ Lemma clear_rows_ok : forall c p pg start stop back ws img, cfg_ok c ->
   page_op_ok c pg (clear_rows c p pg start stop back ws img).
 Proof.
   intros c p pg start stop back ws img C Hs Hst Hnd.
-  unfold clear_rows, area, vb_text_to_pixel_area. cbv beta iota zeta.
+  unfold clear_rows. geo.
   set (pg1 := set_px pg (mset c (px pg) ((start - 1) * fh c) (stop * fh c - 1 + 1) ((1 - 1) * fw c)
                            (TW c * fw c - 1 + 1) (fun _ _ => back))).
   destruct (force_submit c p pg1 ws img) as [pg2 ev] eqn:EF.
@@ -528,7 +561,7 @@ Lemma scroll_up_canvas : forall k a b back y x, 0 <= y < cPH k -> 0 <= x < cPW k
 Proof.
   intros k a b back y x Iy Ix Hf Hab.
   assert (Hm : (a - 1) * cfh k <= (b - 1) * cfh k) by (apply Z.mul_le_mono_nonneg_r; lia).
-  unfold consume1, sdl_scroll_bands. cbv beta iota zeta. change (-1 =? -1) with true. cbv iota.
+  unfold consume1. geo. change (-1 =? -1) with true. cbv iota.
   unfold cset, set_canvas. cbn [canvas cPH cPW].
   split_rects; try reflexivity; try lia; f_equal; lia.
 Qed.
@@ -540,14 +573,14 @@ Lemma scroll_down_canvas : forall k a b back y x, 0 <= y < cPH k -> 0 <= x < cPW
 Proof.
   intros k a b back y x Iy Ix Hf Hab.
   assert (Hm : (a - 1) * cfh k <= (b - 1) * cfh k) by (apply Z.mul_le_mono_nonneg_r; lia).
-  unfold consume1, sdl_scroll_bands. cbv beta iota zeta. change (1 =? -1) with false. cbv iota.
+  unfold consume1. geo. change (1 =? -1) with false. cbv iota.
   unfold cset, set_canvas. cbn [canvas cPH cPW].
   split_rects; try reflexivity; try lia; f_equal; lia.
 Qed.
 
 Lemma scroll_geom : forall c k d a b back, geom_ok c k -> geom_ok c (consume1 k (SScroll d a b back)).
 Proof.
-  intros c k d a b back G. unfold consume1, sdl_scroll_bands. cbv beta iota zeta.
+  intros c k d a b back G. unfold consume1. geo.
   destruct (d =? -1); exact G.
 Qed.
 
@@ -556,8 +589,8 @@ Lemma scroll_up_ok : forall c p pg from to back ws img, cfg_ok c ->
   page_op_ok c pg (scroll_up c p pg from to back ws img).
 Proof.
   intros c p pg from to back ws img C Hft Hto.
-  unfold scroll_up, area, pos, vb_text_to_pixel_area, vb_text_to_pixel_pos. cbv beta iota zeta.
-  destruct (force_submit c p pg ws img) as [pg1 ev] eqn:EF.
+  unfold scroll_up.
+  destruct (force_submit c p pg ws img) as [pg1 ev] eqn:EF. geo.
   assert (Epg1 : pg1 = fst (force_submit c p pg ws img)) by (rewrite EF; reflexivity).
   assert (Eev : ev = snd (force_submit c p pg ws img)) by (rewrite EF; reflexivity).
   assert (V1 : visible pg1 = visible pg) by (rewrite Epg1, force_submit_visible; reflexivity).
@@ -586,8 +619,8 @@ Lemma scroll_down_ok : forall c p pg from to back ws img, cfg_ok c ->
   page_op_ok c pg (scroll_down c p pg from to back ws img).
 Proof.
   intros c p pg from to back ws img C Hft Hto.
-  unfold scroll_down, area, pos, vb_text_to_pixel_area, vb_text_to_pixel_pos. cbv beta iota zeta.
-  destruct (force_submit c p pg ws img) as [pg1 ev] eqn:EF.
+  unfold scroll_down.
+  destruct (force_submit c p pg ws img) as [pg1 ev] eqn:EF. geo.
   assert (Epg1 : pg1 = fst (force_submit c p pg ws img)) by (rewrite EF; reflexivity).
   assert (Eev : ev = snd (force_submit c p pg ws img)) by (rewrite EF; reflexivity).
   assert (V1 : visible pg1 = visible pg) by (rewrite Epg1, force_submit_visible; reflexivity).
